@@ -25,7 +25,7 @@ META = dict(
     technique='source-to-Lean translation of straight-line numba kernels + algebraic theorems for every special-function instance + bit-exact execution tie + quadrature oracle',
     ref='§3 C18',
 )
-LEAN_PROPS = ["TsdateVerif.Props.C18"]
+LEAN_PROPS = ["TsdateVerif.Props.C18", "TsdateVerif.Props.C18Closed"]
 LEAN_BUILD = ["TsdateVerif.Gen.KernelsRun", "TsdateVerif.Model.Proto"]
 TRANSLATORS = ["kernels"]
 ASSUMPTIONS = [
@@ -50,20 +50,75 @@ HARD = 0.10         # beyond this an exceedance outside the listed regimes is no
 EXACT = 1e-12
 
 
-# ----------------------------------------------------------------------------- parameter vectors (EP ranges)
+# ----------------------------------------------------------------------------- the population EP really produces
 
-def ep_vector(rng):
-    """cavity shapes (already +1) in [1, 1000] (max_shape default), rates and span*rate over 1e-7..1e-1,
-    mutation counts 0..100, fixed ages around the natural time scale of the cavity."""
-    lg = kc.logu
-    small = rng.random() < 0.08            # a few shapes below 1 (classified separately)
-    a_i = lg(rng, 0.05, 1.0) if small and rng.random() < 0.5 else lg(rng, 1.0, 1000.0)
-    a_j = lg(rng, 0.05, 1.0) if small and rng.random() < 0.5 else lg(rng, 1.0, 1000.0)
-    b_i, b_j, mu = lg(rng, 1e-7, 1e-1), lg(rng, 1e-7, 1e-1), lg(rng, 1e-7, 1e-1)
-    y = float(rng.choice([0, 0, 1, 1, 2, 3, 5, 8, 20, 100]))
-    t_i = float(a_j / b_j * np.exp(rng.normal())) if rng.random() < 0.7 else lg(rng, 1.0, 1e6)
-    t_j = float(a_i / b_i * np.exp(rng.normal())) if rng.random() < 0.7 else lg(rng, 1.0, 1e6)
-    return dict(a_i=a_i, b_i=b_i, a_j=a_j, b_j=b_j, y=y, mu=mu, t_i=t_i, t_j=t_j)
+LAYOUT = {      # flat argument layout of each projection wrapper
+    "gamma_projection": ("a_i-1", "b_i", "a_j-1", "b_j", "y", "mu"),
+    "unphased_projection": ("a_i-1", "b_i", "a_j-1", "b_j", "y", "mu"),
+    "mutation_gamma_projection": ("a_i-1", "b_i", "a_j-1", "b_j", "y", "mu"),
+    "mutation_unphased_projection": ("a_i-1", "b_i", "a_j-1", "b_j", "y", "mu"),
+    "rootward_projection": ("t_j", "a_i-1", "b_i", "y", "mu"),
+    "mutation_rootward_projection": ("t_j", "a_i-1", "b_i", "y", "mu"),
+    "leafward_projection": ("t_i", "a_j-1", "b_j", "y", "mu"),
+    "mutation_leafward_projection": ("t_i", "a_j-1", "b_j", "y", "mu"),
+    "sideways_projection": ("t_i", "a_j-1", "b_j", "y", "mu"),
+    "mutation_sideways_projection": ("t_i", "a_j-1", "b_j", "y", "mu"),
+    "twin_projection": ("a_i-1", "b_i", "y", "mu"),
+    "mutation_twin_projection": ("a_i-1", "b_i", "y", "mu"),
+    "mutation_edge_projection": ("t_i", "t_j"),
+    "mutation_block_projection": ("t_i", "t_j"),
+}
+SECTION = {
+    "gamma_projection": "moments", "mutation_gamma_projection": "moments",
+    "unphased_projection": "unphased", "mutation_unphased_projection": "unphased",
+    "rootward_projection": "rootward", "mutation_rootward_projection": "rootward",
+    "leafward_projection": "leafward", "mutation_leafward_projection": "leafward",
+    "sideways_projection": "sideways", "mutation_sideways_projection": "sideways",
+    "twin_projection": "twin", "mutation_twin_projection": "twin",
+    "mutation_edge_projection": "edge", "mutation_block_projection": "block",
+}
+
+
+def record_population(ctx):
+    """Vectors handed to the 14 wrappers by real variational_gamma runs (harness/ep_record.py, a subprocess with the JIT
+    disabled so that the wrappers can be rebound; cached per source fingerprint, seed and tier)."""
+    import json
+    import subprocess
+    import sys
+    n_ts, cap = ctx.n(16, 200), ctx.n(60, 1500)
+    d = common.CACHE / "ep_vectors"
+    d.mkdir(parents=True, exist_ok=True)
+    f = d / f"{common.source_fingerprint()[:16]}-{ctx.seed}-{n_ts}-{cap}.json"
+    if not f.exists():
+        env = dict(__import__("os").environ, NUMBA_DISABLE_JIT="1")
+        r = subprocess.run([sys.executable, "-m", "harness.ep_record", str(ctx.seed), str(n_ts), str(f) + ".tmp", str(cap)],
+                           cwd=common.VERIF, env=env, capture_output=True, text=True, timeout=3000)
+        if r.returncode != 0:
+            raise RuntimeError("ep_record failed: " + r.stderr[-800:])
+        (d / (f.name + ".tmp")).replace(f)
+        for old in sorted(d.glob("*.json"), key=lambda x: x.stat().st_mtime)[:-12]:
+            old.unlink()
+    return json.loads(f.read_text())
+
+
+def to_vector(name, flat):
+    v = {}
+    for k, x in zip(LAYOUT[name], flat):
+        if k.endswith("-1"):
+            v[k[:-2]] = x + 1.0
+        else:
+            v[k] = x
+    return v
+
+
+def perturb(rng, v):
+    """a nearby vector: every continuous parameter multiplied by exp(N(0, 0.2)); counts unchanged"""
+    w = {}
+    for k, x in v.items():
+        w[k] = x if k == "y" else float(x * np.exp(0.2 * rng.normal()))
+    if "t_i" in w and "t_j" in w and not w["t_i"] > w["t_j"]:
+        w["t_i"], w["t_j"] = v["t_i"], v["t_j"]
+    return w
 
 
 def rel(x, ref):
@@ -73,6 +128,7 @@ def rel(x, ref):
 class Oracle:
     def __init__(self, res):
         self.res = res
+        self.src = "recorded"
         self.stats = dict(updates={}, skipped={}, acc={}, support_checked=0, closed_form=0, kinds={}, hyp={})
 
     def viol(self, kind, what, name, args):
@@ -81,15 +137,16 @@ class Oracle:
 
     def acc(self, name, comp, got, true, args, small, cancel=False, absolute=False):
         e = abs(got - true) if absolute else rel(got, true)
-        d = self.stats["acc"].setdefault(f"{name}.{comp}", dict(n=0, over5=0, worst=0.0))
-        d["n"] += 1
+        d = self.stats["acc"].setdefault(f"{name}.{comp}", dict(n_recorded=0, n_perturbed=0, over5_recorded=0,
+                                                                 over5_perturbed=0, worst=0.0))
+        d["n_" + self.src] += 1
         d["worst"] = max(d["worst"], e)
         if not (e <= ACC):
-            d["over5"] += 1
+            d["over5_" + self.src] += 1
             regime = ("shape<1" if small else "cancellation" if cancel else "marginal(<=10%)" if e <= HARD else "regular")
-            self.viol(f"accuracy>5%:{regime}" + (f":{name}.{comp}" if regime == "regular" else ""),
-                      f"{name}{tuple(args)}: {comp} = {got!r}, quadrature {true!r} (error {e:.3g}, regime {regime})",
-                      name, args)
+            self.viol(f"accuracy>5%:{name}.{comp}:{self.src}:{regime}",
+                      f"{name}{tuple(args)} ({self.src} EP vector): {comp} = {got!r}, quadrature {true!r} (error {e:.3g}, "
+                      f"regime {regime})", name, args)
 
     def count(self, name, skipped):
         k = "skipped" if skipped else "updates"
@@ -116,172 +173,213 @@ def check_projection(o, name, args, out, n_pars, phase=False):
 
 
 def call(name, args):
-    r = kc.run_real(name, args)
-    return r
+    return kc.run_real(name, args)
 
 
-def one_vector(o, v, res):
-    a_i, b_i, a_j, b_j, y, mu, t_i, t_j = (v[k] for k in ("a_i", "b_i", "a_j", "b_j", "y", "mu", "t_i", "t_j"))
-    small = min(a_i, a_j) < 1.0
-    pi, pj, pij = [a_i - 1, b_i], [a_j - 1, b_j], [y, mu]
+def one_vector(o, sec, v, res):
+    """All clauses of C18 for the kernels of section `sec` on the argument vector `v`."""
+    y = v.get("y", 1.0)
+    mu = v.get("mu")
 
     def run(name, args):
         res.evaluations += 1
         r = call(name, args)
         if r[0] != "ok":
-            kind = "assert" if r[0] == "assert" else r[0]
-            o.viol(f"raises-{kind}:{name}" + (":y=0" if y == 0 else ""),
+            o.viol(f"raises-{r[0]}:{name}",
                    f"{name}{tuple(args)} raised {r[1][:100]!r} instead of skipping or returning moments", name, args)
             return None
         return r[1]
 
-    # ---- rootward (free parent above fixed child)
-    for tj in ([0.0, t_j] if o.res.evaluations % 3 == 0 else [t_j]):
+    if sec == "rootward":
+        tj, a_i, b_i = v["t_j"], v["a_i"], v["b_i"]
+        small = a_i < 1.0
+        pi, pij = [a_i - 1, b_i], [y, mu]
         args = [tj, a_i, b_i, y, mu]
         m = run("rootward_moments", args)
         p = run("rootward_projection", [tj] + pi + pij)
         if m is None or p is None:
-            continue
+            return
         if check_projection(o, "rootward_projection", [tj] + pi + pij, p, 1):
-            s, r = p[1] + 1, p[2]
-            mn = s / r
+            mn = (p[1] + 1) / p[2]
             o.stats["support_checked"] += 1
             if not mn > tj:
                 o.viol("mean-outside-support:rootward_projection", f"rootward_projection{tuple([tj] + pi + pij)}: mean {mn!r} not above fixed child {tj!r}", "rootward_projection", [tj] + pi + pij)
-            tr = ko.rootward_true(tj, a_i, b_i, y, mu)
+            tr = ko.rootward_true(tj, a_i, b_i, y, mu) if mu + b_i > 0 else None
             if tj == 0.0:
                 o.stats["closed_form"] += 1
-                if rel(p[1], a_i - 1 + y) > EXACT or rel(p[2], b_i + mu) > EXACT:
+                if rel(p[1], a_i - 1 + y) > EXACT * max(1.0, 1 / abs(a_i - 1 + y) if a_i - 1 + y else 1.0) or rel(p[2], b_i + mu) > EXACT:
                     o.viol("conjugate-not-exact:rootward_projection", f"rootward_projection at t_j=0 {tuple(pi + pij)} returned {p[1:]}, expected ({a_i - 1 + y}, {b_i + mu})", "rootward_projection", [tj] + pi + pij)
             elif tr is not None:
                 o.acc("rootward_moments", "mn", m[1], tr[0], args, small)
                 res.nontrivial.add(common.canon_key(["rootward"] + [f2h(x) for x in args]))
-            mm = run("mutation_rootward_moments", args)
-            pm = run("mutation_rootward_projection", [tj] + pi + pij)
-            if mm is not None and pm is not None and mm[0] == mm[0]:
-                if check_projection(o, "mutation_rootward_projection", [tj] + pi + pij, pm, 1, phase=True):
-                    o.stats["support_checked"] += 1
-                    if not (tj < mm[0] < mn * (1 + 1e-9)):
-                        o.viol("mean-outside-support:mutation_rootward", f"mutation_rootward_moments{tuple(args)}: mutation mean {mm[0]!r} not between child {tj!r} and parent mean {mn!r}", "mutation_rootward_moments", args)
-                if tr is not None:
-                    o.acc("mutation_rootward_moments", "mn", mm[0], (tr[0] + tj) / 2, args, small)
-    # ---- leafward (free child below fixed parent)
-    args = [t_i, a_j, b_j, y, mu]
-    m = run("leafward_moments", args)
-    p = run("leafward_projection", [t_i] + pj + pij)
-    if m is not None and p is not None and check_projection(o, "leafward_projection", [t_i] + pj + pij, p, 1):
-        mn = (p[1] + 1) / p[2]
-        o.stats["support_checked"] += 1
-        if not (0 < mn < t_i):
-            o.viol("mean-outside-support:leafward_projection", f"leafward_projection{tuple([t_i] + pj + pij)}: mean {mn!r} not below fixed parent {t_i!r}", "leafward_projection", [t_i] + pj + pij)
-        tr = ko.leafward_true(t_i, a_j, b_j, y, mu)
-        if tr is not None:
-            o.acc("leafward_moments", "mn", m[1], tr[0], args, small)
-            res.nontrivial.add(common.canon_key(["leafward"] + [f2h(x) for x in args]))
-        mm = run("mutation_leafward_moments", args)
-        pm = run("mutation_leafward_projection", [t_i] + pj + pij)
-        if mm is not None and pm is not None and mm[0] == mm[0]:
-            if check_projection(o, "mutation_leafward_projection", [t_i] + pj + pij, pm, 1, phase=True):
-                o.stats["support_checked"] += 1
-                if not (mn * (1 - 1e-9) < mm[0] < t_i):
-                    o.viol("mean-outside-support:mutation_leafward", f"mutation_leafward_moments{tuple(args)}: mutation mean {mm[0]!r} not between child mean {mn!r} and parent {t_i!r}", "mutation_leafward_moments", args)
+            if y >= 1:
+                mm = run("mutation_rootward_moments", args)
+                pm = run("mutation_rootward_projection", [tj] + pi + pij)
+                if mm is not None and pm is not None and mm[0] == mm[0]:
+                    if check_projection(o, "mutation_rootward_projection", [tj] + pi + pij, pm, 1, phase=True):
+                        o.stats["support_checked"] += 1
+                        if not (tj < mm[0] < mn * (1 + 1e-9)):
+                            o.viol("mean-outside-support:mutation_rootward", f"mutation_rootward_moments{tuple(args)}: mutation mean {mm[0]!r} not between child {tj!r} and parent mean {mn!r}", "mutation_rootward_moments", args)
+                    if tr is not None:
+                        o.acc("mutation_rootward_moments", "mn", mm[0], (tr[0] + tj) / 2, args, small)
+    elif sec == "leafward":
+        t_i, a_j, b_j = v["t_i"], v["a_j"], v["b_j"]
+        small = a_j < 1.0
+        pj, pij = [a_j - 1, b_j], [y, mu]
+        args = [t_i, a_j, b_j, y, mu]
+        m = run("leafward_moments", args)
+        p = run("leafward_projection", [t_i] + pj + pij)
+        if m is not None and p is not None and check_projection(o, "leafward_projection", [t_i] + pj + pij, p, 1):
+            mn = (p[1] + 1) / p[2]
+            o.stats["support_checked"] += 1
+            if not (0 < mn < t_i):
+                o.viol("mean-outside-support:leafward_projection", f"leafward_projection{tuple([t_i] + pj + pij)}: mean {mn!r} not below fixed parent {t_i!r}", "leafward_projection", [t_i] + pj + pij)
+            tr = ko.leafward_true(t_i, a_j, b_j, y, mu)
             if tr is not None:
-                o.acc("mutation_leafward_moments", "mn", mm[0], (tr[0] + t_i) / 2, args, small)
-    # ---- both ends free
-    args = [a_i, b_i, a_j, b_j, y, mu]
-    m = run("moments", args)
-    p = run("gamma_projection", pi + pj + pij)
-    if m is not None and p is not None and check_projection(o, "gamma_projection", pi + pj + pij, p, 2):
-        mi, mj = (p[1] + 1) / p[2], (p[3] + 1) / p[4]
-        o.stats["support_checked"] += 1
-        if not (mi > mj > 0):
-            o.viol("mean-outside-support:gamma_projection", f"gamma_projection{tuple(pi + pj + pij)}: parent mean {mi!r} not above child mean {mj!r}", "gamma_projection", pi + pj + pij)
-        tr = ko.moments_true(*args)
-        if tr is not None:
-            z = (mu - b_j) / (mu + b_i)
-            kappa = -z * tr[2] / tr[0]        # mn_i = B/t + z mn_j: cancellation only when z < 0
-            o.acc("moments", "mn_i", m[1], tr[0], args, small, cancel=(kappa > 2 and rel(m[3], tr[2]) <= ACC))
-            o.acc("moments", "mn_j", m[3], tr[2], args, small)
-            res.nontrivial.add(common.canon_key(["moments"] + [f2h(x) for x in args]))
-        mm = run("mutation_moments", args)
-        pm = run("mutation_gamma_projection", pi + pj + pij)
-        if mm is not None and pm is not None and mm[0] == mm[0]:
-            if check_projection(o, "mutation_gamma_projection", pi + pj + pij, pm, 1, phase=True):
+                o.acc("leafward_moments", "mn", m[1], tr[0], args, small)
+                res.nontrivial.add(common.canon_key(["leafward"] + [f2h(x) for x in args]))
+            if y >= 1:
+                mm = run("mutation_leafward_moments", args)
+                pm = run("mutation_leafward_projection", [t_i] + pj + pij)
+                if mm is not None and pm is not None and mm[0] == mm[0]:
+                    if check_projection(o, "mutation_leafward_projection", [t_i] + pj + pij, pm, 1, phase=True):
+                        o.stats["support_checked"] += 1
+                        if not (mn * (1 - 1e-9) < mm[0] < t_i):
+                            o.viol("mean-outside-support:mutation_leafward", f"mutation_leafward_moments{tuple(args)}: mutation mean {mm[0]!r} not between child mean {mn!r} and parent {t_i!r}", "mutation_leafward_moments", args)
+                    if tr is not None:
+                        o.acc("mutation_leafward_moments", "mn", mm[0], (tr[0] + t_i) / 2, args, small)
+    elif sec in ("moments", "unphased"):
+        a_i, b_i, a_j, b_j = v["a_i"], v["b_i"], v["a_j"], v["b_j"]
+        small = min(a_i, a_j) < 1.0
+        pi, pj, pij = [a_i - 1, b_i], [a_j - 1, b_j], [y, mu]
+        args = [a_i, b_i, a_j, b_j, y, mu]
+        if sec == "moments":
+            m = run("moments", args)
+            p = run("gamma_projection", pi + pj + pij)
+            if m is not None and p is not None and check_projection(o, "gamma_projection", pi + pj + pij, p, 2):
+                mi, mj = (p[1] + 1) / p[2], (p[3] + 1) / p[4]
                 o.stats["support_checked"] += 1
-                if not (mj * (1 - 1e-9) < mm[0] < mi * (1 + 1e-9)):
-                    o.viol("mean-outside-support:mutation_moments", f"mutation_moments{tuple(args)}: mutation mean {mm[0]!r} not between the node means {mj!r}, {mi!r}", "mutation_moments", args)
-            trm = ko.mutation_moments_true(*args)
-            if trm is not None:
-                o.acc("mutation_moments", "mn", mm[0], trm[0], args, small)
-    # ---- unphased block, both parents free
-    m = run("unphased_moments", args)
-    p = run("unphased_projection", pi + pj + pij)
-    if m is not None and p is not None and check_projection(o, "unphased_projection", pi + pj + pij, p, 2):
-        tr = ko.unphased_true(*args)
-        if tr is not None:
-            # E[t_i] is computed as B/t - z E[t_j]: a relative error e of E[t_j] becomes kappa * e with
-            # kappa = z E[t_j] / E[t_i]
-            kappa = (mu + b_j) / (mu + b_i) * tr[2] / tr[0]
-            o.acc("unphased_moments", "mn_i", m[1], tr[0], args, small,
-                  cancel=(kappa > 2 and rel(m[3], tr[2]) <= ACC))
-            o.acc("unphased_moments", "mn_j", m[3], tr[2], args, small)
-            res.nontrivial.add(common.canon_key(["unphased"] + [f2h(x) for x in args]))
-    if y >= 1:       # a dated mutation's block carries at least that mutation
-        mm = run("mutation_unphased_moments", args)
-        pm = run("mutation_unphased_projection", pi + pj + pij)
-        if mm is not None and pm is not None and mm[1] == mm[1]:
-            check_projection(o, "mutation_unphased_projection", pi + pj + pij, pm, 1, phase=True)
-            trm = ko.mutation_unphased_true(*args)
-            if trm is not None:
-                o.acc("mutation_unphased_moments", "pr", mm[0], trm[0], args, small, absolute=True)
-                o.acc("mutation_unphased_moments", "mn", mm[1], trm[1], args, small,
-                      cancel=(max(a_i / b_i, a_j / b_j) > 1e3 * min(a_i / b_i, a_j / b_j)))
-    # ---- sideways (free parent of a block, other parent fixed)
-    args = [t_i, a_j, b_j, y, mu]
-    m = run("sideways_moments", args)
-    p = run("sideways_projection", [t_i] + pj + pij)
-    if m is not None and p is not None and check_projection(o, "sideways_projection", [t_i] + pj + pij, p, 1):
-        tr = ko.sideways_true(t_i, a_j, b_j, y, mu)
-        if tr is not None:
-            o.acc("sideways_moments", "mn", m[1], tr[0], args, small)
-            res.nontrivial.add(common.canon_key(["sideways"] + [f2h(x) for x in args]))
-    if y >= 1:
-        mm = run("mutation_sideways_moments", args)
-        pm = run("mutation_sideways_projection", [t_i] + pj + pij)
-        if mm is not None and pm is not None and mm[1] == mm[1]:
-            check_projection(o, "mutation_sideways_projection", [t_i] + pj + pij, pm, 1, phase=True)
-            trm = ko.mutation_sideways_true(t_i, a_j, b_j, y, mu)
-            if trm is not None:
-                o.acc("mutation_sideways_moments", "pr", mm[0], trm[0], args, small, absolute=True)
-                o.acc("mutation_sideways_moments", "mn", mm[1], trm[1], args, small)
-    # ---- closed forms: twin, both ends fixed, block
-    p = run("twin_projection", pi + pij)
-    if p is not None and check_projection(o, "twin_projection", pi + pij, p, 1):
-        o.stats["closed_form"] += 1
-        if rel(p[1], a_i - 1 + y) > EXACT or rel(p[2], b_i + 2 * mu) > EXACT:
-            o.viol("conjugate-not-exact:twin_projection", f"twin_projection{tuple(pi + pij)} returned {p[1:]}, expected ({a_i - 1 + y}, {b_i + 2 * mu})", "twin_projection", pi + pij)
-    pm = run("mutation_twin_projection", pi + pij)
-    if pm is not None and check_projection(o, "mutation_twin_projection", pi + pij, pm, 1, phase=True):
-        o.stats["closed_form"] += 1
-        s, r = a_i + y, b_i + 2 * mu
-        mn_t, va_t = s / (2 * r), s * (s + 4) / (12 * r * r)
-        mn, va = (pm[1] + 1) / pm[2], (pm[1] + 1) / pm[2] ** 2
-        if pm[0] != 0.5 or rel(mn, mn_t) > 1e-9 or rel(va, va_t) > 1e-6:
-            o.viol("closed-form-not-exact:mutation_twin_projection", f"mutation_twin_projection{tuple(pi + pij)}: mean {mn!r} var {va!r} phase {pm[0]!r}, expected {mn_t!r} {va_t!r} 0.5", "mutation_twin_projection", pi + pij)
-    hi, lo = max(t_i, t_j), min(t_i, t_j)
-    pe = run("mutation_edge_projection", [hi, lo])
-    if pe is not None and check_projection(o, "mutation_edge_projection", [hi, lo], pe, 1, phase=True):
-        o.stats["closed_form"] += 1
-        mn, va = (pe[1] + 1) / pe[2], (pe[1] + 1) / pe[2] ** 2
-        if rel(mn, (hi + lo) / 2) > 1e-12 or rel(va, (hi - lo) ** 2 / 12) > 1e-9 or not (lo < mn < hi):
-            o.viol("closed-form-not-exact:mutation_edge_projection", f"mutation_edge_projection({hi!r}, {lo!r}): mean {mn!r} var {va!r}", "mutation_edge_projection", [hi, lo])
-    pb = run("mutation_block_projection", [t_i, t_j])
-    if pb is not None and check_projection(o, "mutation_block_projection", [t_i, t_j], pb, 1, phase=True):
-        o.stats["closed_form"] += 1
-        mn = (pb[1] + 1) / pb[2]
-        mn_t = (t_i ** 2 + t_j ** 2) / (2 * (t_i + t_j))
-        if rel(pb[0], t_i / (t_i + t_j)) > 1e-12 or rel(mn, mn_t) > 1e-9 or not (0 < mn < hi):
-            o.viol("closed-form-not-exact:mutation_block_projection", f"mutation_block_projection({t_i!r}, {t_j!r}): phase {pb[0]!r} mean {mn!r}", "mutation_block_projection", [t_i, t_j])
+                if not (mi > mj > 0):
+                    o.viol("mean-outside-support:gamma_projection", f"gamma_projection{tuple(pi + pj + pij)}: parent mean {mi!r} not above child mean {mj!r}", "gamma_projection", pi + pj + pij)
+                tr = ko.moments_true(*args)
+                if tr is not None:
+                    z = (mu - b_j) / (mu + b_i)
+                    kappa = -z * tr[2] / tr[0]        # mn_i = B/t + z mn_j: cancellation only when z < 0
+                    o.acc("moments", "mn_i", m[1], tr[0], args, small, cancel=(kappa > 2 and rel(m[3], tr[2]) <= ACC))
+                    o.acc("moments", "mn_j", m[3], tr[2], args, small)
+                    res.nontrivial.add(common.canon_key(["moments"] + [f2h(x) for x in args]))
+                if y >= 1:
+                    mm = run("mutation_moments", args)
+                    pm = run("mutation_gamma_projection", pi + pj + pij)
+                    if mm is not None and pm is not None and mm[0] == mm[0]:
+                        if check_projection(o, "mutation_gamma_projection", pi + pj + pij, pm, 1, phase=True):
+                            o.stats["support_checked"] += 1
+                            if not (mj * (1 - 1e-9) < mm[0] < mi * (1 + 1e-9)):
+                                o.viol("mean-outside-support:mutation_moments", f"mutation_moments{tuple(args)}: mutation mean {mm[0]!r} not between the node means {mj!r}, {mi!r}", "mutation_moments", args)
+                        trm = ko.mutation_moments_true(*args)
+                        if trm is not None:
+                            o.acc("mutation_moments", "mn", mm[0], trm[0], args, small)
+        else:
+            m = run("unphased_moments", args)
+            p = run("unphased_projection", pi + pj + pij)
+            if m is not None and p is not None and check_projection(o, "unphased_projection", pi + pj + pij, p, 2):
+                tr = ko.unphased_true(*args) if (mu + b_i > 0 and mu + b_j > 0) else None
+                if tr is not None:
+                    # E[t_i] is computed as B/t - z E[t_j]: a relative error e of E[t_j] becomes kappa * e
+                    kappa = (mu + b_j) / (mu + b_i) * tr[2] / tr[0]
+                    o.acc("unphased_moments", "mn_i", m[1], tr[0], args, small,
+                          cancel=(kappa > 2 and rel(m[3], tr[2]) <= ACC))
+                    o.acc("unphased_moments", "mn_j", m[3], tr[2], args, small)
+                    res.nontrivial.add(common.canon_key(["unphased"] + [f2h(x) for x in args]))
+            if y >= 1:       # a dated mutation's block carries at least that mutation
+                mm = run("mutation_unphased_moments", args)
+                pm = run("mutation_unphased_projection", pi + pj + pij)
+                if mm is not None and pm is not None and mm[1] == mm[1]:
+                    check_projection(o, "mutation_unphased_projection", pi + pj + pij, pm, 1, phase=True)
+                    trm = ko.mutation_unphased_true(*args) if (mu + b_i > 0 and mu + b_j > 0) else None
+                    if trm is not None:
+                        o.acc("mutation_unphased_moments", "pr", mm[0], trm[0], args, small, absolute=True)
+                        o.acc("mutation_unphased_moments", "mn", mm[1], trm[1], args, small)
+    elif sec == "sideways":
+        t_i, a_j, b_j = v["t_i"], v["a_j"], v["b_j"]
+        small = a_j < 1.0
+        pj, pij = [a_j - 1, b_j], [y, mu]
+        args = [t_i, a_j, b_j, y, mu]
+        m = run("sideways_moments", args)
+        p = run("sideways_projection", [t_i] + pj + pij)
+        if m is not None and p is not None and check_projection(o, "sideways_projection", [t_i] + pj + pij, p, 1):
+            tr = ko.sideways_true(t_i, a_j, b_j, y, mu) if mu + b_j > 0 else None
+            if tr is not None:
+                o.acc("sideways_moments", "mn", m[1], tr[0], args, small)
+                res.nontrivial.add(common.canon_key(["sideways"] + [f2h(x) for x in args]))
+        if y >= 1:
+            mm = run("mutation_sideways_moments", args)
+            pm = run("mutation_sideways_projection", [t_i] + pj + pij)
+            if mm is not None and pm is not None and mm[1] == mm[1]:
+                check_projection(o, "mutation_sideways_projection", [t_i] + pj + pij, pm, 1, phase=True)
+                trm = ko.mutation_sideways_true(t_i, a_j, b_j, y, mu) if mu + b_j > 0 else None
+                if trm is not None:
+                    o.acc("mutation_sideways_moments", "pr", mm[0], trm[0], args, small, absolute=True)
+                    o.acc("mutation_sideways_moments", "mn", mm[1], trm[1], args, small)
+    elif sec == "twin":
+        a_i, b_i = v["a_i"], v["b_i"]
+        pi, pij = [a_i - 1, b_i], [y, mu]
+        p = run("twin_projection", pi + pij)
+        if p is not None and check_projection(o, "twin_projection", pi + pij, p, 1):
+            o.stats["closed_form"] += 1
+            if abs(p[1] - (a_i - 1 + y)) > EXACT * max(1.0, a_i + y) or rel(p[2], b_i + 2 * mu) > EXACT:
+                o.viol("conjugate-not-exact:twin_projection", f"twin_projection{tuple(pi + pij)} returned {p[1:]}, expected ({a_i - 1 + y}, {b_i + 2 * mu})", "twin_projection", pi + pij)
+        pm = run("mutation_twin_projection", pi + pij)
+        if pm is not None and check_projection(o, "mutation_twin_projection", pi + pij, pm, 1, phase=True):
+            o.stats["closed_form"] += 1
+            s, r = a_i + y, b_i + 2 * mu
+            mn_t, va_t = s / (2 * r), s * (s + 4) / (12 * r * r)
+            mn, va = (pm[1] + 1) / pm[2], (pm[1] + 1) / pm[2] ** 2
+            if pm[0] != 0.5 or rel(mn, mn_t) > 1e-9 or rel(va, va_t) > 1e-6:
+                o.viol("closed-form-not-exact:mutation_twin_projection", f"mutation_twin_projection{tuple(pi + pij)}: mean {mn!r} var {va!r} phase {pm[0]!r}, expected {mn_t!r} {va_t!r} 0.5", "mutation_twin_projection", pi + pij)
+    elif sec in ("edge", "block"):
+        t_i, t_j = v["t_i"], v["t_j"]
+        hi, lo = max(t_i, t_j), min(t_i, t_j)
+        if sec == "edge":
+            pe = run("mutation_edge_projection", [hi, lo])
+            if pe is not None and check_projection(o, "mutation_edge_projection", [hi, lo], pe, 1, phase=True):
+                o.stats["closed_form"] += 1
+                mn, va = (pe[1] + 1) / pe[2], (pe[1] + 1) / pe[2] ** 2
+                if rel(mn, (hi + lo) / 2) > 1e-12 or rel(va, (hi - lo) ** 2 / 12) > 1e-9 or not (lo < mn < hi):
+                    o.viol("closed-form-not-exact:mutation_edge_projection", f"mutation_edge_projection({hi!r}, {lo!r}): mean {mn!r} var {va!r}", "mutation_edge_projection", [hi, lo])
+        elif t_i > 0 and t_j > 0:
+            pb = run("mutation_block_projection", [t_i, t_j])
+            if pb is not None and check_projection(o, "mutation_block_projection", [t_i, t_j], pb, 1, phase=True):
+                o.stats["closed_form"] += 1
+                mn = (pb[1] + 1) / pb[2]
+                mn_t = (t_i ** 2 + t_j ** 2) / (2 * (t_i + t_j))
+                if rel(pb[0], t_i / (t_i + t_j)) > 1e-12 or rel(mn, mn_t) > 1e-9 or not (0 < mn < hi):
+                    o.viol("closed-form-not-exact:mutation_block_projection", f"mutation_block_projection({t_i!r}, {t_j!r}): phase {pb[0]!r} mean {mn!r}", "mutation_block_projection", [t_i, t_j])
+
+
+def oracle_on_population(o, pop, rng, res):
+    """Every recorded vector and one perturbed neighbour of it through the clauses of its kernel."""
+    reached = {}
+    for name, vecs in sorted(pop["vectors"].items()):
+        if name not in LAYOUT:
+            continue
+        reached[name] = len(vecs)
+        for flat in vecs:
+            v = to_vector(name, flat)
+            if not all(math.isfinite(x) for x in v.values()):
+                continue
+            o.src = "recorded"
+            one_vector(o, SECTION[name], v, res)
+            o.src = "perturbed"
+            one_vector(o, SECTION[name], perturb(rng, v), res)
+    # the block kernel between two fixed parents is reached only with unphased singletons below two fixed nodes:
+    # when the recorded runs did not reach it, exercise its closed form on pairs of recorded fixed ages
+    ages = [f[0] for n in ("rootward_projection", "leafward_projection", "sideways_projection") for f in pop["vectors"].get(n, []) if f[0] > 0]
+    o.src = "recorded"
+    for k in range(0, min(len(ages) - 1, 60), 2):
+        one_vector(o, "block", dict(t_i=ages[k], t_j=ages[k + 1]), res)
+        one_vector(o, "edge", dict(t_i=ages[k], t_j=ages[k + 1]), res)
+    return reached
 
 
 def exact_algebra(o, rng, n, res):
@@ -348,17 +446,14 @@ def exact_algebra(o, rng, n, res):
     o.stats["exact_algebra_worst"] = worst
 
 
-def robustness_y0(o, rng, n, res):
-    """Outside EP's range (a dated mutation's block has y >= 1): y = 0 in mutation_sideways_* (finding C18-a)."""
+def observation_y0(rng, n):
+    """OBSERVATION, outside C18's quantifier (propagate_mutations never passes y = 0 to a mutation kernel):
+    the fraction of shapes for which mutation_sideways_moments(.., y=0, ..) trips `assert b >= a` after rounding."""
+    bad = 0
     for _ in range(n):
-        a = kc.logu(rng, 0.05, 1000.0)
-        args = [100.0, a, 1e-3, 0.0, 1e-3]
-        res.evaluations += 1
-        r = call("mutation_sideways_moments", args)
-        if r[0] == "assert":
-            o.viol("raises-assert:mutation_sideways_moments:y=0",
-                   f"mutation_sideways_moments{tuple(args)} raised AssertionError (b >= a fails after rounding: "
-                   f"(a+0+1)+1 < a+2) instead of skipping", "mutation_sideways_moments", args)
+        r = call("mutation_sideways_moments", [100.0, kc.logu(rng, 0.05, 1000.0), 1e-3, 0.0, 1e-3])
+        bad += r[0] == "assert"
+    return bad / max(n, 1)
 
 
 def run(ctx):
@@ -387,25 +482,36 @@ def run(ctx):
     worst_int = ko.selfcheck(ctx.rng(14), ctx.n(3, 12))
     if worst_int > 1e-8:
         raise RuntimeError(f"quadrature oracle disagrees with mpmath.quad by {worst_int:.2e}")
-    for k in range(ctx.n(150, 6000)):
-        v = ep_vector(rng)
-        one_vector(o, v, res)
-        if k < 3:
-            res.sample({kk: repr(vv) for kk, vv in v.items()})
+    pop = record_population(ctx)
+    reached = oracle_on_population(o, pop, rng, res)
+    for name, vecs in sorted(pop["vectors"].items())[:3]:
+        if vecs:
+            res.sample(dict(kernel=name, recorded_args=[repr(x) for x in vecs[0]]))
     exact_algebra(o, ctx.rng(17), ctx.n(25, 600), res)
-    robustness_y0(o, ctx.rng(15), ctx.n(300, 3000), res)
     # degenerate edge: both ends at the same age must be skipped (zero variance), never projected
     for t in (1.0, 123.456, 1e6):
         res.evaluations += 1
         r = call("mutation_edge_projection", [t, t])
         if r[0] != "ok" or not all(x != x for x in r[1]):
             o.viol("degenerate-edge-not-skipped", f"mutation_edge_projection({t}, {t}) returned {r} instead of skipping", "mutation_edge_projection", [t, t])
-    res.rule = ("B: 38 translated kernels x generated argument vectors (log-uniform EP ranges, boundary points of every "
+    runs = pop.get("runs", [])
+    o.stats["ep_population"] = dict(
+        runs=len(runs), runs_ok=sum(1 for r in runs if r.get("ok")),
+        run_errors=sorted({r.get("exc", r.get("error", "?"))[:60] for r in runs if not r.get("ok")}),
+        wrapper_calls=pop.get("calls", {}), vectors_used=reached,
+        wrappers_not_reached=sorted(set(LAYOUT) - set(reached)),
+        over5_recorded=sum(d["over5_recorded"] for d in o.stats["acc"].values()),
+        over5_perturbed=sum(d["over5_perturbed"] for d in o.stats["acc"].values()))
+    o.stats["observations"] = dict(mutation_sideways_y0_assert_rate=observation_y0(ctx.rng(15), ctx.n(300, 3000)))
+    res.rule = ("B: 38 translated kernels x generated argument vectors (log-uniform ranges, boundary points of every "
                 "_valid_* predicate, NaN/inf/0 specials), numba vs generated Lean at Float, bit-for-bit; non-trivial = "
-                "the real kernel returned at least one number. C: EP-range vectors (shape 1..1000 (+8% below 1), rates "
-                "1e-7..1e-1, counts 0..100, fixed ages around the cavity scale) through every moments kernel and "
-                "projection wrapper vs numerical integration of the stated density; non-trivial = update not skipped "
-                "and computed by a Laplace-approximated kernel; distinct by hash of the argument bits.")
+                "the real kernel returned at least one number. C: the argument vectors that real variational_gamma runs "
+                "hand to the 14 wrappers (recorded by rebinding tsdate.approx.* in a JIT-disabled subprocess: haploid/"
+                "diploid, phased/unphased singletons, historical and internal samples, option variants) and one "
+                "perturbed neighbour of each (x exp(N(0,0.2))), through the wrapper and its moments kernel vs numerical "
+                "integration of the stated density; plus the code's algebra with exact special functions on moderate "
+                "synthetic vectors. Non-trivial = update not skipped and computed by a Laplace-approximated kernel; "
+                "distinct by hash of the argument bits.")
     o.stats["hyp"] = hyp
     res.extra = dict(input_distribution=dict(correspondence=stats, oracle=o.stats),
                      oracle_calls=dict(lgamma_driver_max_rel_err=lg_err, quadrature_vs_mpmath=worst_int),
@@ -416,9 +522,9 @@ def run(ctx):
 def search(ctx):
     res = Result()
     o = Oracle(res)
-    rng = ctx.rng(16)
-    for _ in range(ctx.n(60, 300)):
-        one_vector(o, ep_vector(rng), res)
+    pop = record_population(ctx)
+    oracle_on_population(o, pop, ctx.rng(16), res)
+    exact_algebra(o, ctx.rng(18), ctx.n(10, 60), res)
     return res
 
 
